@@ -24,16 +24,16 @@ import (
 
 // Pair describes one sibling relation.
 type Pair struct {
-	Rule   string
-	Pkg    string
-	A, B   string            // "Recv.Method" or "Func"
-	Drop   []string          // identifiers whose statements / elements are projected away (state only one sibling has)
-	Subst  map[[2]string]int // allowed token substitutions A->B with their maximal count
-	From   string            // optional: compare only from the statement that defines this identifier ...
-	To     string            // ... up to the first return that mentions this identifier (fragment comparison)
-	BlindArgs []string       // calls to these functions are compared without their arguments
-	Fold   map[string]string // selector expressions (after receiver renaming) folded to one identifier, e.g. recv.Partial -> partial
-	Why    string
+	Rule      string
+	Pkg       string
+	A, B      string            // "Recv.Method" or "Func"
+	Drop      []string          // identifiers whose statements / elements are projected away (state only one sibling has)
+	Subst     map[[2]string]int // allowed token substitutions A->B with their maximal count
+	From      string            // optional: compare only from the statement that defines this identifier ...
+	To        string            // ... up to the first return that mentions this identifier (fragment comparison)
+	BlindArgs []string          // calls to these functions are compared without their arguments
+	Fold      map[string]string // selector expressions (after receiver renaming) folded to one identifier, e.g. recv.Partial -> partial
+	Why       string
 }
 
 func recvIdent(fd *ast.FuncDecl) string {
